@@ -2,13 +2,17 @@ package main
 
 // Area "aggq" (property C06): control skeletons of the code the C06 transition systems were written from.
 //
-// A skeleton is a canonical one-line rendering of a function body that keeps
+// A skeleton is a canonical one-line rendering of a function body (function-local names — parameters, receiver,
+// locals, local constants, labels — are replaced by $0, $1 … in order of first appearance in the skeleton, so
+// renaming them, or adding locals that the skeleton does not show, changes nothing) that keeps
 //   - the control structure: defer{…} go{…} for{…} L:for{…} select{case <comm>:{…} default:{…}} switch(…){…}
 //     if(<cond>){…}else{…} return(<results>) break L / continue / goto
 //   - every call made by a statement, in evaluation order, by its callee text (a.handle, encoder.Flush, sink.Close …)
-//   - channel sends `send(ch)`
+//   - channel sends `send(ch)`, `x++`/`x--`, the post statement of a for loop
+//   - `child, cancel := context.WithCancel(parent)` as `ctx(child, cancel <- parent)`, and the context / cancel-function
+//     arguments of every call (who runs under which context)
 // and drops what does not matter for what is written and when the sink is closed: declarations and plain
-// assignments without calls, ++/--, logging (…Log.…, log.Info/Debug/Warn/Error, zap.…), error decoration
+// assignments without calls, logging (…Log.…, log.Info/Debug/Warn/Error, zap.…), error decoration
 // (errors.WithMessage, errutil.Join, fmt.Sprintf at statement level), ticker `.Stop()` calls.
 // `log.Fatal` / `log.Panic` are kept as `exit` / `panic` (they end the process / goroutine).
 //
@@ -17,9 +21,10 @@ package main
 //                     dataSinkAggregator.Run, handleSample, jsonEncoder.Encode, jsonEncoder.Flush
 //   core/datasink   : fileSink.OpenSink skeleton, the open flags and permission as numbers, and os.O_* for comparison
 //   core/engine     : runAwaitHandle.checkAllInstancesAreFinished, isStartFinished, awaitRun, instancePool.awaitRunAsync,
-//                     Engine.Wait, the constant resultsToWait
+//                     Engine.Wait, the constant resultsToWait; Engine.Run, instancePool.Run, runAsync, startInstances,
+//                     onErrAwaited, runNewInstance, instance.Run and the context tree of runAsync (area_aggq_engine.go)
 //   core/aggregator/netsample : phoutAggregator.Run, Report
-//   cli             : awaitPandoraTermination
+//   cli             : awaitPandoraTermination, runEngine, ReadConfigAndRunEngine
 // The Bridge (lean/Pandora/Bridge/C06AggQ.lean) compares each with the skeleton the model was written from.
 
 import (
@@ -174,6 +179,20 @@ func (s *aggqSkel) calls(e ast.Node) []string {
 			}
 			if ok && (tv.IsType() || tv.IsBuiltin()) {
 				return
+			}
+			// logging through go.uber.org/zap, whatever the logger variable is called
+			if sel, isSel := x.Fun.(*ast.SelectorExpr); isSel {
+				if sn, found := s.t.pkg.TypesInfo.Selections[sel]; found {
+					if f, isFunc := sn.Obj().(*types.Func); isFunc && strings.Contains(f.FullName(), "go.uber.org/zap") {
+						switch f.Name() {
+						case "Fatal":
+							out = append(out, "exit")
+						case "Panic":
+							out = append(out, "panic")
+						}
+						return
+					}
+				}
 			}
 			name := s.src(x.Fun)
 			switch {
